@@ -40,7 +40,8 @@ CONSTANTS
     Slack,        \* a reserve may allocate up to Slack bytes more than asked for (BytesMut does)
     Boundary,     \* TokioTransport: BACKPRESSURE_BOUNDARY
     ChunkMode,    \* "all": every chunk size; "edge": only chunks ending at the interesting offsets
-    MaxChunks,    \* edge mode: bound on the number of chunks (the last one completes the stream)
+    MaxChunks,    \* edge mode: bound on the number of chunks fed / read items / write items of a behaviour
+                  \* (the last read completes the stream, the last write takes everything)
     Bounded,      \* TRUE: generator (budgets below apply, API calls are goal directed)
     MaxCalls,     \* Bounded: number of events per behaviour
     MaxFaults,    \* Bounded: number of non-data I/O results per behaviour
@@ -128,6 +129,7 @@ FeedSizes == IF ChunkMode = "all" THEN 1 .. (T - fed)
 
 WriteSizes == LET w == Size(wbuf) IN
               IF ChunkMode = "all" THEN 1 .. w
+              ELSE IF chunks + 1 >= MaxChunks THEN {w}
               ELSE {n \in {1, 4, 5, w - 1, w, w + 7, 8192, w - 8192, w - 8191} : n >= 1}
 
 ---------------------------------------------------------------------------------------------
@@ -205,7 +207,8 @@ PkNext_ == /\ Machine = "pk" /\ ~PkDone
 (* (b) TokioTransport *)
 
 TokUnchRecv == UNCHANGED <<lens, slens, mode, drained, wbuf, wr, started, ready, dirty, bq, handed, offered>>
-TokUnchSend == UNCHANGED <<lens, slens, mode, pk, fed, drained, chunks, avail, bq, handed, offered>>
+TokUnchSend0 == UNCHANGED <<lens, slens, mode, pk, fed, drained, avail, bq, handed, offered>>
+TokUnchSend == TokUnchSend0 /\ UNCHANGED chunks
 
 Delivered == obs.deliv
 FrameBuffered == PkNext(pk).msg # <<>>
@@ -298,11 +301,11 @@ SendReturn(c, r, e) ==
 \* one iteration of the write loop of send_poll_flush
 TxStep ==
     /\ pc = "tx"
-    /\ TokUnchSend
+    /\ TokUnchSend0
     /\ UNCHANGED started
     /\ IF wbuf = <<>> THEN
             /\ pc' = "txf"
-            /\ UNCHANGED <<wbuf, wr, ready, dirty, call, dead, faults, ncalls, hist, obs>>
+            /\ UNCHANGED <<wbuf, wr, ready, dirty, call, dead, faults, chunks, ncalls, hist, obs>>
        ELSE
        \/ \E n \in WriteSizes :
             LET k == Min(n, Size(wbuf))
@@ -311,9 +314,10 @@ TxStep ==
             /\ wr' = w2 /\ wbuf' = Drop(wbuf, k)
             /\ call' = [call EXCEPT !.s = Script(@, <<n>>), !.wn = @ + k,
                                     !.wm = IF w2 = Take(OutStream, Size(w2)) THEN @ ELSE 0]
+            /\ chunks' = IF Bounded /\ ChunkMode = "edge" THEN chunks + 1 ELSE chunks
             /\ UNCHANGED <<pc, ready, dirty, dead, faults, ncalls, hist, obs>>
        \/ /\ FaultsLeft /\ faults' = Count(faults)
-          /\ UNCHANGED <<wbuf, wr>>
+          /\ UNCHANGED <<wbuf, wr, chunks>>
           /\ \/ SendReturn([call EXCEPT !.s = Script(@, <<0>>), !.ev = Append(@, "w0")], "err", "wz")
              \/ SendReturn([call EXCEPT !.s = Script(@, <<-1>>), !.ev = Append(@, "wpend")], "pend", "")
              \/ SendReturn([call EXCEPT !.s = Script(@, <<-2>>), !.ev = Append(@, "werr")], "err", "io")
